@@ -44,3 +44,5 @@ def run(ctx):
     from . import shared as S
     S.r12_sinks(ctx)
     H.r16_1_purity(ctx, 'R05.13', roots=['yatiml.recognizer:Recognizer.recognize'], what='recognition (a trial of one candidate leaves the node as it was for the next)')
+    # an object referenced twice is dumped as anchor + alias: the cycle pre-check must let every such (acyclic) document through
+    A.r18_1_cycles(ctx, 'R05.14')
